@@ -115,7 +115,7 @@ def unquote(s):
 # ---------------------------------------------------------------------------------------
 class Call:
     __slots__ = ("body", "bb", "term", "fn", "decl", "full", "rpath", "rfull", "rlocal", "trait",
-                 "self_ty", "impl_self", "args", "dest", "target", "line", "exp", "gargs", "local")
+                 "self_ty", "impl_self", "args", "dest", "target", "line", "exp", "gargs", "local", "host_bb")
 
     def __init__(self, body, bb, term):
         self.body = body
